@@ -14,3 +14,38 @@ pub fn is_square(m: &[f64]) -> Result<usize, String> {
         Err(String::new())
     }
 }
+
+/// Contract stub for `compute::linalg::solve` (harnesses declared with `harness_s!`): the result is a
+/// fresh symbolic vector x constrained only by A x = b, i.e. `solve` is replaced by what property C01
+/// establishes about it (decided there for orders 1 and 2 per route; for a singular A the path is
+/// infeasible, so obligations hold vacuously there - the harnesses using it keep A nonsingular).
+/// The compositional claim "fit step correct given a correct linear solver" is stated in the
+/// obligations that use it. Natively (replays) the real `solve` runs.
+static mut SOLVE_CALLS: u32 = 0;
+pub fn solve_contract(a: &[f64], b: &[f64]) -> Vec<f64> {
+    let n = b.len();
+    // every call gets its own block of four fresh inputs (orders <= 4, at most 8 calls per harness)
+    let base = unsafe {
+        let c = SOLVE_CALLS;
+        SOLVE_CALLS = c + 1;
+        480 + 4 * c
+    };
+    let mut x = vec![0.0; n];
+    let mut i = 0;
+    while i < n {
+        x[i] = crate::rt::inp::f64(base + i as u32);
+        i += 1;
+    }
+    let mut i = 0;
+    while i < n {
+        let mut s = 0.0;
+        let mut j = 0;
+        while j < n {
+            s += a[i * n + j] * x[j];
+            j += 1;
+        }
+        crate::rt::assume(s == b[i], "solve contract: A x = b");
+        i += 1;
+    }
+    x
+}
